@@ -1,7 +1,7 @@
 """manifest_text.py - wording of the MANIFEST entries (what each check claims and trusts)."""
 HOOK_COMMITS = ["50cd013"]
 PENDING = "check under construction in this session (harness not yet registered); see DESIGN.md section 4 for the planned oracle"
-NOT_APPLICABLE = {p: PENDING for p in ["C03", "C05", "C07", "C13", "C14", "C16", "C17", "C18", "C20"]}
+NOT_APPLICABLE = {p: PENDING for p in ["C05", "C07", "C14", "C16", "C17", "C18"]}
 TEXT = {
  "C01": dict(
     technique="property-based testing (rapidcheck): LPs with planted primal-dual certificates x parameter combinations, exact GMP certificate oracle",
@@ -50,4 +50,20 @@ TEXT.update({
     technique="model-based property testing (rapidcheck) of 20 container/vector kinds against std:: models, also under ASan/UBSan/LSan",
     level_text="Operation sequences on DataSet, ClassSet, SVSet, LPRowSet/LPColSet, NameSet, DataHashTable, IdxSet/DIdxSet, DataArray/Array/ClassArray, IdList/IsList, Sorter and the vector classes (double with exact data, Rational) are mirrored on std:: models and compared after every operation (keys, dense numbering, permutations, contents, lifetimes, exact arithmetic); a second stage runs under sanitizers. Exploration.",
     level_note="trusted: std:: containers, GMP; preconditions documented in the headers are respected by construction; ClassSet element lifetime is a known finding"),
+})
+
+TEXT.update({
+ "C03": dict(
+    technique="property-based testing (rapidcheck): rational planted LPs x exact-solver option sets, certificate oracle at tolerance zero",
+    level_text="Planted LPs with non-dyadic rational data are entered through the rational (or real) interface and solved exactly under default options, the shipped exact settings files and random settings of the 13 exact-solver booleans; every returned verdict is compared with the planted class and every returned rational vector/objective is verified with exact arithmetic (==). Exploration; the 'every LP is decided' sub-claim is a recorded known finding and counted only.",
+    level_note="trusted: GMP, the certificate oracle, planted class by construction; deterministic iteration/refinement budgets, a 20 s TIMELIMIT only as watchdog (hits are inconclusive)"),
+ "C13": dict(
+    engine="libFuzzer",
+    technique="coverage-guided fuzzing (libFuzzer + ASan/UBSan/LSan) of the LP/MPS/basis/settings readers with semantic post-read oracles; valgrind replay",
+    level_text="Two libFuzzer targets (bare SPxLPBase readers for double/Rational; whole SoPlex object incl. basis and settings readers, gz files) run 12 processes x 45 s (quick) / 16 x 20 min (thorough) from seeded and empty corpora; after every successful read the LP storage is checked for self-consistency, after every failed read the object must still clear, reload and solve a known LP; crashes, sanitizer reports, leaks and 60 s hangs (re-run 3x) are violations; the thorough tier replays the corpus under valgrind for uninitialised reads. Exploration.",
+    level_note="trusted: sanitizers, valgrind, the self-consistency checks in harness/fuzz_*.cpp; six reader defects are recorded as known findings and their input classes are filtered (counted)"),
+ "C20": dict(
+    technique="stateful property-based testing (rapidcheck): every C call mirrored on a C++ twin and on a model built from the input arrays; ASan stage",
+    level_text="Sequences over all 56 SoPlex_* functions with exactly-sized heap arrays; after every call the object behind the handle, the C++ twin that received the wrapped call, and the reference model built from the input arrays must agree (LP data exact, parameters, statuses, solution arrays bitwise, returned strings parsed exactly); the asan stage detects reads/writes outside the given lengths. Exploration.",
+    level_note="trusted: the C++ API as the specification of the wrappers, the reference model for the meaning of the dense arrays; leaks are observations, not violations"),
 })
